@@ -1070,6 +1070,23 @@ def _normalise_op(prog, op):
             op["wop"] = "save"
     elif op["op"] == "remove":
         op["key"] = rest[0] if rest else None
+    elif op["op"] == "replace" and len(rest) == 3:
+        # IndexedMap::replace(storage, key, new, old): the low-level write behind save / remove.  It is
+        # the same as save(key, new) / remove(key) exactly when `old` is what is stored under `key`,
+        # i.e. the result of may_load / load of the same container under the same key.
+        key, new, old = rest
+        op["key"] = key
+        o = old
+        while o[0] in ("payload", "trybranch"):
+            o = o[1]
+        same_rec = o[0] == "call" and o[1].startswith("cw_storage_plus::") and o[1].split("::")[-1] in ("may_load", "load") and len(o[2]) >= 3 and norm(o[2][0]) == norm(head[0]) and norm(o[2][2]) == norm(key)
+        if same_rec:
+            alts = new[1] if new[0] == "phi" else (new,)
+            if all(a[0] == "agg" and a[2] == "Some" for a in alts):
+                op["wop"] = "save"
+                op["value"] = ok_payload(new)
+            elif all(a[0] == "agg" and a[2] == "None" for a in alts):
+                op["wop"] = "remove"
 
 
 def forms(prog, t, maxdepth=3, assumptions=()):
